@@ -457,7 +457,7 @@ def run_c(case, tf):
             if int(cb.num_iters) != n_iter:
               bad("iteration-count", "num_iters %r != %d" % (cb.num_iters, n_iter))
             states.add((n_iter, tuple(vals), round(float(got), 9)))
-        trace_digest.append((len(hist), round(float(cb.qnoise_factor), 9)))
+        trace_digest.append((len(hist), round(float(cb.qnoise_factor), 9) if cb.qnoise_factor is not None else None))
   return {"evals": events, "transitions": transitions, "nontrivial": int(inter),
           "state_keys": ["c|%r|%r" % (sorted(case.items()), s) for s in states],
           "digest": common.digest(trace_digest), "violations": viol, "traces": hists,
